@@ -109,14 +109,18 @@ func pathTable(c *Ctx, ts tableSpec) ([]string, []string, token.Pos) {
 		for _, cr := range crs {
 			if cr.callee == "<loop>" {
 				var alts []string
+				var items []condBody
 				for _, a := range cr.loop {
 					var cs []string
 					for _, x := range a.conds {
 						cs = append(cs, normCond(x))
 					}
-					cs = simplifyConds(cs)
+					items = append(items, condBody{conds: simplifyConds(cs), body: strings.Join(renderCalls(a.calls, nil), "; ") + " " + a.exit})
+				}
+				for _, it := range items {
+					cs := append([]string{}, it.conds...)
 					sort.Strings(cs)
-					alts = append(alts, "["+strings.Join(cs, " && ")+"] "+strings.Join(renderCalls(a.calls, nil), "; ")+" "+a.exit)
+					alts = append(alts, "["+strings.Join(cs, " && ")+"] "+it.body)
 				}
 				sort.Strings(alts)
 				hdr := ""
@@ -152,7 +156,7 @@ func pathTable(c *Ctx, ts tableSpec) ([]string, []string, token.Pos) {
 		}
 		return out
 	}
-	render := func(st *sstate, rets []val, raised bool) string {
+	render := func(st *sstate, rets []val, raised bool) condBody {
 		var conds []string
 		for _, cnd := range st.conds {
 			conds = append(conds, normCond(cnd))
@@ -170,22 +174,29 @@ func pathTable(c *Ctx, ts tableSpec) ([]string, []string, token.Pos) {
 			}
 			tail = " -> " + strings.Join(rs, ", ")
 		}
-		return relabel("[" + strings.Join(conds, " && ") + "] " + strings.Join(es, "; ") + tail)
+		return condBody{conds: conds, body: relabel(strings.Join(es, "; ") + tail)}
 	}
 	var und []string
 	res := se.runFunc(fd, vals, names)
 	if se.overflow {
 		und = append(und, "path explosion")
 	}
-	var out []string
+	var items []condBody
 	for _, pr := range res {
 		und = append(und, pr.st.und...)
-		out = append(out, render(pr.st, pr.rets, false))
+		items = append(items, render(pr.st, pr.rets, false))
 	}
 	for _, st := range se.raised {
 		und = append(und, st.und...)
-		out = append(out, render(st, nil, true))
+		items = append(items, render(st, nil, true))
 	}
+	// (paths are not merged here as the emission engine does: the effects shown in a decision table
+	// are texts of the statements, which do not carry every difference between two paths)
+	var out []string
+	for _, it := range items {
+		out = append(out, "["+strings.Join(it.conds, " && ")+"] "+it.body)
+	}
+	sort.Strings(out)
 	return uniq(out), uniq(und), fd.Pos()
 }
 
